@@ -1,5 +1,6 @@
 import SluProofs.Lemmas.Solve
 import SluProofs.Lemmas.SolveT
+import SluProofs.Lemmas.MyBlas2
 import SluProofs.Props.C02
 import SluProofs.Props.C04
 /-
@@ -173,3 +174,124 @@ example : (let st := luFactor exCx false
     gstrsT id st.piv st.L st.U #[0, 1] #[⟨2, -1⟩, ⟨1, 1⟩]) ≠ #[⟨1, 0⟩, ⟨0, 1⟩] := by decide +kernel
 
 end Slu.LU
+
+/-! ### The library's own dense kernels (SRC/[sdcz]myblas2.c) — what the triangular solves and the
+numeric updates execute when the library is not built with a vendor BLAS
+
+`Slu/Model/MyBlas2.lean` mirrors `[sdcz]lsolve`, `usolve`, `matvec` (every unrolled block, every tail)
+and `[sdcz]snode_bmod`; family `myblas` compares the mirrors with the C routines bit for bit.  The
+theorems below are their exact-arithmetic specification, for EVERY `ncol`, `nrow`, `ldm`, offset, and
+for both unrolling schemes (`cplx = false`: the real files, 8/4/2 resp. 8/4/1 columns; `cplx = true`:
+the complex files, 4/2 resp. 4/1 columns). -/
+namespace Slu.MyBlas2
+open Slu Finset Slu.Kernels
+
+variable {K : Type} [Field K] [Inhabited K]
+
+/-- **C01 (own BLAS: `lsolve`).** For every `ncol` (every residue of every unrolling factor), every
+`ldm` and offsets: the cells `ro .. ro+ncol-1` of the result hold the solution of the UNIT lower
+triangular system `L x = rhs` whose strictly lower part is read from `M` with stride `ldm` — it is
+the dense reference `Slu.Kernels.fwdSub` — and no other cell of `rhs` changes (`M` is not written:
+it is an argument that is only read). -/
+theorem lsolve_spec (cplx : Bool) (ldm ncol : Nat) (M : Array K) (mo : Nat) (rhs : Array K) (ro : Nat)
+    (hb : ro + ncol ≤ rhs.size) :
+    (lsolve cplx ldm ncol M mo rhs ro).size = rhs.size ∧
+    (∀ i, i < ncol → (lsolve cplx ldm ncol M mo rhs ro)[ro + i]! =
+      (fwdSub (fun i j => M[mo + (j * ldm + i)]!) (fun _ => 1) (fun i => rhs[ro + i]!) ncol).getD i 0) ∧
+    (∀ i, i < ncol → (lsolve cplx ldm ncol M mo rhs ro)[ro + i]! +
+      ∑ j ∈ range i, M[mo + (j * ldm + i)]! * (lsolve cplx ldm ncol M mo rhs ro)[ro + j]! = rhs[ro + i]!) ∧
+    (∀ p, (p < ro ∨ ro + ncol ≤ p) → (lsolve cplx ldm ncol M mo rhs ro)[p]! = rhs[p]!) := by
+  have hz : ∀ i, i < ncol →
+      (fwdSub (fun i j => M[mo + (j * ldm + i)]!) (fun _ => 1) (fun i => rhs[ro + i]!) ncol).getD i 0 =
+      rhs[ro + i]! - ∑ j ∈ range i,
+        (fwdSub (fun i j => M[mo + (j * ldm + i)]!) (fun _ => 1) (fun i => rhs[ro + i]!) ncol).getD j 0 * M[mo + (j * ldm + i)]! := by
+    intro i hi
+    rw [fwd_rec _ _ _ ncol i hi, div_one]
+    congr 1
+    exact Finset.sum_congr rfl (fun j _ => mul_comm _ _)
+  obtain ⟨h1, h2, h3⟩ := lsolveG_spec cplx ldm ncol (fun _ i => M[mo + i]!) ro rhs (fun i j => M[mo + (j * ldm + i)]!) _ hb
+    (fun _ _ _ _ _ _ => rfl) hz
+  refine ⟨h1, h2, fun i hi => ?_, h3⟩
+  have hrow := fwdSub_row (fun i j => M[mo + (j * ldm + i)]!) (fun _ => 1) (fun i => rhs[ro + i]!) ncol i hi one_ne_zero
+  unfold lsolve
+  rw [h2 i hi, Finset.sum_congr rfl (fun j hj => by rw [h2 j (by have := mem_range.mp hj; omega)]), add_comm]
+  simpa using hrow
+
+/-- **C01 (own BLAS: `lsolve` inside one array, as `snode_bmod` calls it).** Matrix at offset `mo`
+and right-hand side at offset `ro` of the SAME array; as long as the strictly lower triangle read
+by the routine does not overlap the right-hand side, the result is the same forward substitution
+and EVERY cell outside `ro .. ro+ncol-1` — in particular every entry of the matrix — is unchanged. -/
+theorem lsolveA_spec (cplx : Bool) (ldm ncol : Nat) (a : Array K) (mo ro : Nat) (hb : ro + ncol ≤ a.size)
+    (hdis : ∀ i j, j < i → i < ncol → mo + (j * ldm + i) < ro ∨ ro + ncol ≤ mo + (j * ldm + i)) :
+    (lsolveA cplx ldm ncol a mo ro).size = a.size ∧
+    (∀ i, i < ncol → (lsolveA cplx ldm ncol a mo ro)[ro + i]! =
+      (fwdSub (fun i j => a[mo + (j * ldm + i)]!) (fun _ => 1) (fun i => a[ro + i]!) ncol).getD i 0) ∧
+    (∀ p, (p < ro ∨ ro + ncol ≤ p) → (lsolveA cplx ldm ncol a mo ro)[p]! = a[p]!) := by
+  have hz : ∀ i, i < ncol →
+      (fwdSub (fun i j => a[mo + (j * ldm + i)]!) (fun _ => 1) (fun i => a[ro + i]!) ncol).getD i 0 =
+      a[ro + i]! - ∑ j ∈ range i,
+        (fwdSub (fun i j => a[mo + (j * ldm + i)]!) (fun _ => 1) (fun i => a[ro + i]!) ncol).getD j 0 * a[mo + (j * ldm + i)]! := by
+    intro i hi
+    rw [fwd_rec _ _ _ ncol i hi, div_one]
+    congr 1
+    exact Finset.sum_congr rfl (fun j _ => mul_comm _ _)
+  exact lsolveG_spec cplx ldm ncol (fun s i => s[mo + i]!) ro a (fun i j => a[mo + (j * ldm + i)]!) _ hb
+    (fun s hs i j hji hi => hs.2 _ (hdis i j hji hi)) hz
+
+/-- **C01 (own BLAS: `usolve`).** With a nonzero stored diagonal the result is the solution of the
+upper triangular system `U x = rhs` read from `M` with stride `ldm` (the dense reference
+`Slu.Kernels.bwdSub`), for every `ncol`; no other cell of `rhs` changes. -/
+theorem usolve_spec [Conj K] (ldm ncol : Nat) (M : Array K) (mo : Nat) (rhs : Array K) (ro : Nat)
+    (hb : ro + ncol ≤ rhs.size) (hd : ∀ i, i < ncol → M[mo + (i + i * ldm)]! ≠ 0) :
+    (usolve ldm ncol M mo rhs ro).size = rhs.size ∧
+    (∀ i, i < ncol → (usolve ldm ncol M mo rhs ro)[ro + i]! =
+      (bwdSub (fun i j => M[mo + (i + j * ldm)]!) (fun i => M[mo + (i + i * ldm)]!) (fun i => rhs[ro + i]!) ncol ncol).getD i 0) ∧
+    (∀ i, i < ncol → ∑ j ∈ Ico i ncol, M[mo + (i + j * ldm)]! * (usolve ldm ncol M mo rhs ro)[ro + j]! = rhs[ro + i]!) ∧
+    (∀ p, (p < ro ∨ ro + ncol ≤ p) → (usolve ldm ncol M mo rhs ro)[p]! = rhs[p]!) := by
+  have hz : ∀ i, i < ncol →
+      (bwdSub (fun i j => M[mo + (i + j * ldm)]!) (fun i => M[mo + (i + i * ldm)]!) (fun i => rhs[ro + i]!) ncol ncol).getD i 0 =
+      (rhs[ro + i]! - ∑ j ∈ Ico (i + 1) ncol,
+        (bwdSub (fun i j => M[mo + (i + j * ldm)]!) (fun i => M[mo + (i + i * ldm)]!) (fun i => rhs[ro + i]!) ncol ncol).getD j 0 *
+          M[mo + (i + j * ldm)]!) / M[mo + (i + i * ldm)]! := by
+    intro i hi
+    rw [bwd_rec _ _ _ ncol i hi]
+    congr 2
+    exact Finset.sum_congr rfl (fun j _ => mul_comm _ _)
+  obtain ⟨h1, h2, h3⟩ := usolve_spec' ldm ncol M mo rhs ro hb _ hz
+  refine ⟨h1, h2, fun i hi => ?_, h3⟩
+  have hrow := bwdSub_row (fun i j => M[mo + (i + j * ldm)]!) (fun i => M[mo + (i + i * ldm)]!) (fun i => rhs[ro + i]!) ncol i hi (hd i hi)
+  rw [Finset.sum_eq_sum_Ico_succ_bot (by omega), h2 i hi,
+    Finset.sum_congr rfl (fun j hj => by rw [h2 j (by have := mem_Ico.mp hj; omega)])]
+  exact hrow
+
+/-- **C01 (own BLAS: `matvec`).** `Mxvec_out[k] = Mxvec_in[k] + Σ_j M(k,j)·vec[j]` for every `nrow`,
+`ncol`, `ldm`; the cells of `Mxvec` from `nrow` on are unchanged. -/
+theorem matvec_spec (cplx : Bool) (ldm nrow ncol : Nat) (M : Array K) (mo : Nat) (vec : Array K) (vo : Nat) (y : Array K)
+    (hb : nrow ≤ y.size) :
+    (matvec cplx ldm nrow ncol M mo vec vo y).size = y.size ∧
+    (∀ k, k < nrow → (matvec cplx ldm nrow ncol M mo vec vo y)[k]! =
+      y[k]! + ∑ j ∈ range ncol, M[mo + (j * ldm + k)]! * vec[vo + j]!) ∧
+    (∀ p, nrow ≤ p → (matvec cplx ldm nrow ncol M mo vec vo y)[p]! = y[p]!) := by
+  obtain ⟨h1, h2, h3⟩ := matvec_spec' cplx ldm nrow ncol M mo vec vo y hb
+  refine ⟨h1, fun k hk => ?_, h3⟩
+  rw [h2 k hk]
+  congr 1
+  exact Finset.sum_congr rfl (fun j _ => mul_comm _ _)
+
+/-! `ncol = 11` (one block of 8, then 2, then the last column resp. 4 + 4 + 2 + last column for the
+complex scheme; `matvec`: 8 + 1 + 1 + 1 resp. 4 + 4 + 1 + 1 + 1), `nrow = 5`, `ldm = 13`. -/
+def exM : Array Rat := (Array.range 143).map fun k => ((((k * 7 + 3) % 5 : Nat) : Int) - 2 : Int)
+def exU : Array Rat := (Array.range 143).map fun k => if k % 14 = 0 then 1 else ((((k * 7 + 3) % 5 : Nat) : Int) - 2 : Int)
+def exRhs : Array Rat := (Array.range 11).map fun k => (((k * 3 + 1) % 7 : Nat) : Int)
+def exY : Array Rat := (Array.range 5).map fun k => ((k : Nat) : Int)
+
+example : lsolve false 13 11 exM 0 exRhs 0 = #[1, 6, -6, 7, -1, -16, -24, 44, 37, -143, 174] := by decide +kernel
+example : lsolve true 13 11 exM 0 exRhs 0 = #[1, 6, -6, 7, -1, -16, -24, 44, 37, -143, 174] := by decide +kernel
+example : matvec false 13 5 11 exM 0 exRhs 0 exY = #[15, -1, -7, 2, 1] := by decide +kernel
+example : matvec true 13 5 11 exM 0 exRhs 0 exY = #[15, -1, -7, 2, 1] := by decide +kernel
+example : usolve 13 11 exU 0 exRhs 0 = #[698, -134, 170, 91, -7, -38, 10, -6, -5, 3, 3] := by decide +kernel
+example := lsolve_spec false 13 11 exM 0 exRhs 0 (by simp [exRhs])
+example := matvec_spec true 13 5 11 exM 0 exRhs 0 exY (by simp [exY])
+example : ∀ i, i < 11 → exU[0 + (i + i * 13)]! ≠ 0 := by decide +kernel
+
+end Slu.MyBlas2
